@@ -67,8 +67,9 @@ func rlkLeaf(c *engine.Chooser, name string, k cfg) {
 	for i := range protos {
 		if hist > 0 { // the instance already ran both rounds for another shape with another key
 			e0, a1, a2 := protos[i].AllocateShare(alt)
-			protos[i].GenShareRoundOne(P.SK[(i+1)%k.n], protos[i].SampleCRP(mp.CRS(1-k.crs), alt), e0, &a1)
-			protos[i].GenShareRoundTwo(e0, P.SK[(i+1)%k.n], a1, &a2)
+			// hist 1: the same key object at a lower shape; hist 2: another key at the maximal other shape
+			protos[i].GenShareRoundOne(P.SK[(i+hist-1)%k.n], protos[i].SampleCRP(mp.CRS(1-k.crs), alt), e0, &a1)
+			protos[i].GenShareRoundTwo(e0, P.SK[(i+hist-1)%k.n], a1, &a2)
 		}
 		crps[i] = protos[i].SampleCRP(mp.CRS(k.crs), evkp)
 		eph[i], r1[i], r2[i] = protos[i].AllocateShare(evkp)
@@ -137,6 +138,16 @@ func rlkLeaf(c *engine.Chooser, name string, k cfg) {
 	n, Nr, B := int64(k.n), mp.RingFactor(params), mp.XeSup(params.Xe()).Int64()
 	E := big.NewInt(2*Nr*n*n*B + n*B)
 	S := big.NewInt(n)
+	// evaluator-independent oracle: every row is an RLWE sample under s of the gadget multiple of s^2 with error
+	// s*e0 + u*e1 + e2 (<= E, see above)
+	{
+		sI := mp.SecretInts(params, P.Ideal)
+		if worst := mp.KeyRowNoise(params, &rlk.GadgetCiphertext, mp.RingMul(params, sI, sI), sI); worst.Cmp(E) > 0 {
+			c.Fail(sig+"/key-rows/not-samples-of-the-ideal-secret", "a row of the relinearisation key is not b = -a*s + P*w*s^2 + e with |e| <= %v: largest |e| = %v (%d parties)", E, worst, k.n)
+			return
+		}
+		c.Cover("functional", "key-rows")
+	}
 	use := func(key *rlwe.RelinearizationKey, lvl int) (noise *big.Int, err error) {
 		defer func() {
 			if r := recover(); r != nil {
